@@ -77,6 +77,8 @@ def _resource(r, ind=""):
     out += _hours(r.get("hours") or [], i2)
     out += _rep([i2 + (lv if isinstance(lv, str) else leave_line(lv)) for lv in r.get("leaves") or []])
     out += _limits(r.get("limits"), i2)
+    if r.get("limits_empty"):   # a limits block with nothing in it (it limits nothing, and hides nothing stated further up)
+        out += [f"{i2}limits {{", f"{i2}}}"]
     for c in r.get("children") or []:
         out += _resource(c, i2)
     out.append(f"{ind}}}")
@@ -136,6 +138,8 @@ def _task(t, ind=""):
     if t.get("prec"):
         out += _rep([f"{i2}precedes " + ", ".join(_dep(d) for d in t["prec"])])
     out += _limits(t.get("limits"), i2)
+    if t.get("limits_empty"):
+        out += [f"{i2}limits {{", f"{i2}}}"]
     for sid, txt in t.get("scen") or []:
         out.append(f"{i2}{sid}:{txt}")
     out += [i2 + line for line in (t.get("raw") or [])]
